@@ -1,11 +1,11 @@
-(* TieGuards.v - re-proved on every run against the size guards and code constants as /repo's source states them now.
+(* TieDecCodes.v - re-proved on every run against the size guards and code constants as /repo's source states them now.
    A construct the translator did not recognise is None and is not tied. *)
 Require Import RP.Model.Base RP.Model.Packet RP.Model.Events RP.Lemmas.EventsExact RP.Generated.SourceGuards.
 
 Definition guard_eqb (a b: bool * nat) : bool := Bool.eqb (fst a) (fst b) && (snd a =? snd b)%nat.
 Definition opt_ok {A} (eqb: A -> A -> bool) (o: option A) (m: A) : bool := match o with None => true | Some x => eqb x m end.
 
-(* the first size guard of each decoder in the source is the one the model's decoder applies (Lemmas.EventsExact.decode_guard) *)
-Theorem tie_guards : length source_guards = 16%nat /\
-  forallb (fun om => opt_ok guard_eqb (fst om) (snd om)) (combine source_guards (map size_guard all_kinds)) = true.
+(* decoder k compares the packet's code with, and encoder k emits, the k-th event code constant *)
+Theorem tie_decoder_codes : length source_decoder_codes = 16%nat /\
+  forallb (fun om => opt_ok Nat.eqb (fst om) (snd om)) (combine source_decoder_codes (seq 0 16)) = true.
 Proof. split; reflexivity. Qed.
